@@ -594,6 +594,7 @@ func Render(ch Chooser, toks []*Tok, opt Options) string {
 			}
 		}
 	}
+	allCRLF := opt.CRLF && opt.Random && ch.Intn(2, "allcrlf") == 1
 	var prev *Tok      // previous rendered (non-empty) token
 	pendingNL := false // an ASI terminator was chosen: next gap must contain a line break (unless } or EOF follows)
 	for i, t := range toks {
@@ -660,6 +661,11 @@ func Render(ch Chooser, toks []*Tok, opt Options) string {
 				}
 			}
 			pendingNL = false
+		}
+		if allCRLF && strings.Contains(gap, "\n") {
+			// a file with Windows line ends: every line break of every gap, also the
+			// one that ends a comment
+			gap = strings.ReplaceAll(strings.ReplaceAll(gap, "\r\n", "\n"), "\n", "\r\n")
 		}
 		t.Gap = gap
 		write(gap)
